@@ -109,7 +109,8 @@ class Check:
 
     # ------------------------------------------------------------------ TLC
     def tlc(self, specdir, module, cfg, workers=None, timeout=600, simulate=None, depth=None,
-            env=None, coverage=False, must_pass=True, label=None, extra=(), dfid=None, heap=None, files=None, seed=None):
+            env=None, coverage=False, must_pass=True, label=None, extra=(), dfid=None, heap=None, files=None, seed=None,
+            gcthreads=None, small=False):
         """Run TLC on spec/<specdir>/<module>.tla in a scratch copy. Returns TLCResult.
         files: {name: content} written into the scratch copy (generated cfgs)."""
         src = os.path.join(SPEC, specdir)
@@ -122,7 +123,8 @@ class Check:
         for f in os.listdir(common):
             if not os.path.exists(os.path.join(dst, f)):
                 shutil.copy(os.path.join(common, f), dst)
-        cmd = ["java", "-XX:+UseParallelGC"]
+        cmd = ["java", "-XX:+UseParallelGC", "-XX:ParallelGCThreads=%d" % (4 if gcthreads is None else gcthreads),
+               "-XX:TieredStopAtLevel=1" if small else "-XX:+TieredCompilation"]
         if heap:
             cmd.append("-Xmx%s" % heap)
         cmd += ["-Xss64m", "-cp", "/opt/veriftools/tla/tla2tools.jar:/opt/veriftools/tla/CommunityModules-deps.jar",
